@@ -44,6 +44,9 @@ def run(rep, tier):
     c03.integer_kernel(rep, F, rule="R8.7")
     from . import c05
     c05.least_index_table(rep, F, rule="R8.8")      # Graham's pivot
+    # the hull is computed from exterior_coords_iter(): every exterior coordinate of every member must be handed over (tables shared with C19)
+    from . import c19
+    c19.traversal_tables(rep, F, rule="R8.9")
 
 
 def side_tests(rep, F):
